@@ -15,7 +15,7 @@ for pid in ids:
         'quick_cmd': f'./check {pid}',
         'thorough_cmd': f'./check {pid} --tier thorough',
         'evidence_file': f'evidence/{pid}.json',
-        'replay_cmd_template': f'/venv/bin/python {{path}}',
+        'replay_cmd_template': './check --replay {path}',
         'engine': 'pyvc',
         'level_claimed': {'category': c['category'], 'text': c['text'], 'design_ref': c.get('design_ref', 'DESIGN.md section 3')},
         'level_note': c['note'],
